@@ -1,0 +1,69 @@
+//go:build verif
+
+package proxy
+
+import (
+	"sort"
+	"time"
+)
+
+// VerifSetTiming replaces the wrapper timing constants; zero leaves a value unchanged.
+func VerifSetTiming(statusCheck, waitResponse, startErr time.Duration) {
+	if statusCheck > 0 {
+		statusCheckInterval = statusCheck
+	}
+	if waitResponse >= 0 {
+		waitResponseTimeout = waitResponse
+	}
+	if startErr >= 0 {
+		startErrTimeout = startErr
+	}
+}
+
+// VerifTiming returns the current wrapper timing constants.
+func VerifTiming() (statusCheck, waitResponse, startErr time.Duration) {
+	return statusCheckInterval, waitResponseTimeout, startErrTimeout
+}
+
+// VerifWrappers returns the live wrappers by name.
+func (pm *Manager) VerifWrappers() map[string]*Wrapper {
+	pm.mu.RLock()
+	defer pm.mu.RUnlock()
+	res := make(map[string]*Wrapper, len(pm.proxies))
+	for k, v := range pm.proxies {
+		res[k] = v
+	}
+	return res
+}
+
+// VerifNames returns the sorted names of the live wrappers.
+func (pm *Manager) VerifNames() []string {
+	pm.mu.RLock()
+	defer pm.mu.RUnlock()
+	res := make([]string, 0, len(pm.proxies))
+	for k := range pm.proxies {
+		res = append(res, k)
+	}
+	sort.Strings(res)
+	return res
+}
+
+// VerifKick wakes the wrapper's checkWorker through its notification channel and returns once
+// the worker has taken the wake-up, i.e. once it was back at its select.  Two kicks in a row
+// therefore guarantee that one complete loop iteration ran in between.  Must not be called on a
+// stopped wrapper.
+func (pw *Wrapper) VerifKick() {
+	pw.healthNotifyCh <- struct{}{}
+}
+
+// VerifHealthCallback invokes the callback the health monitor would invoke.
+func (pw *Wrapper) VerifHealthCallback(ok bool) {
+	if ok {
+		pw.statusNormalCallback()
+	} else {
+		pw.statusFailedCallback()
+	}
+}
+
+// VerifHasMonitor reports whether NewWrapper created a health monitor.
+func (pw *Wrapper) VerifHasMonitor() bool { return pw.monitor != nil }
